@@ -176,7 +176,7 @@ func (g *gen) genOpt(pi *progInfo, n *nodeInfo, used map[string]bool, env *[]Env
 			op.DefI = 7
 		}
 	case KStr, KStrOpt:
-		op.DefS = []string{"", "", "def", "d e", "x\ny", "é"}[g.r.Intn(6)]
+		op.DefS = []string{"", "", "def", "d e", "x\ny", "é", "%H:%M", "100%", "%s %d %v"}[g.r.Intn(9)]
 	case KFlt, KFltOpt:
 		op.DefF = []float64{0, 0, 1.5, -2.25, 1e10, 0.1}[g.r.Intn(6)]
 	case KStrs, KInts, KFlts, KMap:
